@@ -658,7 +658,7 @@ func wrapOne(c cfgT, idx int, beh []step, names []string) (*mismatch, int, error
 	for k, st := range beh {
 		switch st.K {
 		case "start":
-			if err := pick(st.U).comp.Start(ctx, host); err != nil {
+			if err := startC(func(sc context.Context) error { return pick(st.U).comp.Start(sc, host) }); err != nil {
 				return bad(k, "start", "nil", err.Error()), k, nil
 			}
 			started[st.U] = true
